@@ -42,7 +42,7 @@ func main() {
 	out := os.Args[2]
 	parts := os.Args[3:]
 	if len(parts) == 0 {
-		parts = []string{"consts", "super", "announce", "xdr", "dispatch", "skeleton"}
+		parts = []string{"consts", "super", "announce", "xdr", "dispatch", "xdrjson", "skeleton"}
 	}
 	for _, p := range parts {
 		switch p {
@@ -56,6 +56,8 @@ func main() {
 			writeIfChanged(filepath.Join(out, "Xdr.lean"), genXdr())
 		case "dispatch":
 			writeIfChanged(filepath.Join(out, "Dispatch.lean"), genDispatch())
+		case "xdrjson":
+			writeIfChanged(filepath.Join(out, "xdrdesc.json"), genXdrJSON())
 		case "skeleton":
 			writeIfChanged(filepath.Join(out, "Skeleton.lean"), genSkeleton())
 		default:
